@@ -36,6 +36,25 @@ harness(
         "to_dict agrees, for every m (all optional-field combinations, zero sizes, false-y values)",
 )
 
+def meta_default(c, m):
+    T = lambda x: lift(c.engine.truth(x), TBool)  # noqa: E731
+    return And(~m.isdir, m.size.is_none, m.nfiles.is_none, ~m.isexec, *[~T(getattr(m, f)) for f in META_TEXT])
+
+
+def _entry_meta_same(c, a, b):
+    """metadata of an entry before (a) and after (b) the round trip, both optional: equal on the serialised fields, where an
+    absent Meta and one with nothing to serialise are the same value on disk"""
+    return And(Implies(a.is_some & b.is_some, meta_fields_same(c, a.val, b.val)),
+               Implies(a.is_some & b.is_none, meta_default(c, a.val)),
+               Implies(a.is_none & b.is_some, meta_default(c, b.val)))
+
+
+def _entry_meta_native(a, b):
+    from dvc_data.hashfile.meta import Meta as _M
+
+    return _meta_native(a or _M(), b or _M())
+
+
 harness(
     "dvc_data.hashfile.hash_info", "hashinfo_roundtrip",
     "def h(x):\n    d = x.to_dict()\n    y = HashInfo.from_dict(d)\n    return d, y, y.to_dict()\n",
@@ -60,8 +79,8 @@ harness(
     "    p2 = (d2.get('meta') or {}, d2.get('hash_info') or {}, d2['loaded'])\n"
     "    return p1, p2, e2\n",
     params=dict(e=DataIndexEntry),
-    ensures=lambda c: And(_eq(c, c.result[0], c.result[1]), c.result[2].loaded == c.e.loaded),
-    native_check=lambda a, r: r[0] == r[1] and r[2].loaded == a["e"].loaded,
+    ensures=lambda c: And(_eq(c, c.result[0], c.result[1]), c.result[2].loaded == c.e.loaded, _entry_meta_same(c, c.e.meta, c.result[2].meta)),
+    native_check=lambda a, r: r[0] == r[1] and r[2].loaded == a["e"].loaded and _entry_meta_native(a["e"].meta, r[2].meta),
     props=["C20"],
     doc="projection (meta dict or {}, hash dict or {}, loaded) of DataIndexEntry.from_dict(e.to_dict()) equals that of e "
         "(an all-default Meta and an absent one serialise alike: recorded reading of 'same serialisable metadata')",
